@@ -70,6 +70,8 @@ pub fn one_run(cfg: &Cfg, rc: &RunCfg, acc: &mut Acc) -> (Option<J>, u64, bool, 
     for (l, st) in clogs.iter().zip(cfg.stalls.iter()) { *l.stalls.lock().unwrap() = st.clone() }
     if cfg.stalls.iter().any(|s| !s.is_empty()) { acc.count("runs_with_a_consumer_staying_away_12_to_40_ms", 1) }
     let plogs: Vec<Arc<ProdLog>> = cfg.entries.iter().map(|_| Arc::new(ProdLog::default())).collect();
+    // 1 run in 4 (decided by the run's seed): every fourth send of each producer is issued from a destructor while its thread unwinds from a panic ("goodbye" events)
+    if !cfg!(miri) && rc.seed % 4 == 1 { for l in &plogs { l.some_sends_while_unwinding.store(true, std::sync::atomic::Ordering::SeqCst) } acc.count("runs_in_which_some_sends_are_issued_while_the_thread_unwinds_from_a_panic", 1) }
     let done = Arc::new(AtomicU32::new(0));
     let nprod = cfg.entries.len() as u32;
     let mut bodies: Vec<Body> = Vec::new();
